@@ -30,7 +30,7 @@ fn space_for(tier: Tier) -> (Space, usize) {
         }
         Tier::Thorough => {
             s.ast("AN", 5, 64).ast("ANU", 4, 64).ast("ANQ", 4, 64).ast("ANI", 4, 64).ast("ALTM", 4, 64);
-            s.tok("TA", &T_ANCH, 5, 64);
+            s.tok("TA", &T_ANCH, 6, 256);
             s.list("flag strings", 1, 1);
             (s, 5)
         }
